@@ -9,7 +9,7 @@ same bytes / strings / arguments as Python and must produce the same answer.
   concrete_dammit_cmd    the same for a case of the C07 generators, when every name involved is within the model's reach
   encode_cmd             soup.encode(enc) / prettify(enc) / encode_contents(enc) against Model.Codecs.c_tag_encode
 """
-import codecs, itertools, warnings
+import codecs, itertools, re, warnings
 
 CANON = {"ascii": 0, "iso8859-1": 1, "cp1252": 2, "utf-8": 3, "utf-16-le": 4, "utf-16-be": 5, "utf-32-le": 6, "utf-32-be": 7}
 PYNAME = {0: "ascii", 1: "iso-8859-1", 2: "windows-1252", 3: "utf-8", 4: "utf-16-le", 5: "utf-16-be", 6: "utf-32-le",
@@ -602,6 +602,25 @@ def dec_encode(mv):
 # --------------------------------------------------------------------------------------------------------- replay
 def replay(cj):
     """prints what the implementation / interpreter does on a case produced by this module; True when handled"""
+    if cj.get("misled_by") or cj.get("theorem") == "C08_autodetect_declared":
+        from props import c08
+        enc = cj.get("encoding")
+        if cj.get("markup"):
+            r = c08.call(c08.make_soup(cj["markup"]).encode, enc)
+            data = r[1] if r[0] == "ok" else None
+            print("BeautifulSoup(%r, 'html.parser').encode(%r) = %r" % (cj["markup"], enc, data if data is None else data[:200]))
+        else:
+            data = bytes.fromhex(cj["data_hex"]) if cj.get("data_hex") else None
+            print("encoded bytes (%s): %r" % (enc, data if data is None else data[:200]))
+        if data is not None:
+            _, obs, want = redetect(data, enc)
+            print("re-parsing them:", obs)
+            print("the property demands:", want)
+            if cj.get("misled_by"):
+                st = {"charset": 0, "content": 1}.get(cj.get("meta_style"), 0)
+                print("class %r; the corresponding hypothesis of C08_autodetect_declared fails on these bytes: %s"
+                      % (cj["misled_by"], misled_hypothesis_fails(cj["misled_by"], data, enc, st)))
+        return True
     if "bytes_hex" in cj and "codec" in cj:
         bs = bytes.fromhex(cj["bytes_hex"])
         try:
@@ -672,6 +691,88 @@ ADVERSARIAL_TAGS = [
 ]
 
 
+# the open finding C08-autodetect-misled-by-other-bytes: four classes of bytes that mislead the re-detection, each with fixed
+# instances (independent of the seed) that run in every tier: (class, markup, target, meta style)
+MISLED_CLASSES = ("mark-lookalike", "xml-declaration", "declaration-in-comment-or-script", "charset-in-other-attribute")
+MISLED_WITNESSES = [
+    ("mark-lookalike", 'ÿþ<meta charset="koi8-r"/><p>café</p>', "latin-1", 0),
+    ("mark-lookalike", 'þÿ<head><meta charset="koi8-r"/></head><p>naïve</p>', "iso-8859-1", 0),
+    ("mark-lookalike", 'ÿþ<meta http-equiv="Content-Type" content="text/html; charset=koi8-r"/><p>déjà</p>', "latin-1", 1),
+    ("xml-declaration", '<?xml version="1.0" encoding="latin-1"?><meta charset="latin-1"/><p>café €</p>', "utf-8", 0),
+    ("xml-declaration", '<?xml version="1.0" encoding="koi8-r"?><head><meta charset="koi8-r"/></head><p>café</p>', "latin-1", 0),
+    ("xml-declaration", '<?xml version="1.0" encoding="latin-1"?><meta http-equiv="Content-Type" content="text/html; charset=latin-1"/><p>€</p>', "utf-8", 1),
+    ("declaration-in-comment-or-script", '<!-- <meta charset="latin-1"> --><meta charset="latin-1"/><p>café €</p>', "utf-8", 0),
+    ("declaration-in-comment-or-script", '<script>var s = "<meta charset=latin-1>";</script><meta charset="latin-1"/><p>café €</p>', "utf-8", 0),
+    ("charset-in-other-attribute", '<meta charset="latin-1" x="charset=koi8-r"/><p>café €</p>', "utf-8", 0),
+    ("charset-in-other-attribute", '<meta charset="latin-1" data-charset="koi8-r"/><p>café €</p>', "utf-8", 0),
+]
+_XML_DECL = re.compile(rb"^\s*<\?.*encoding=['\"](.*?)['\"].*\?>", re.I)
+_HTML_META = re.compile(rb"<\s*meta[^>]+charset\s*=\s*[\"']?([^>]*?)[ /;'\">]", re.I)
+
+
+def misled_hypothesis_fails(cls, data, enc, style):
+    """Python re-evaluation (independent of the extracted model) of the hypothesis of C08_autodetect_declared that the class
+    names, on the ENCODED bytes: True when that hypothesis really fails."""
+    head = (b'<meta charset="' if style == 0 else b'<meta content="text/html; charset=') + enc.encode("ascii") + b'"'
+    at = data.find(head)
+    if at < 0:
+        return False
+    window = max(2048, int(len(data) * 0.05))
+    if cls == "mark-lookalike":
+        return bom_name(data) is not None
+    if cls == "xml-declaration":
+        return _XML_DECL.search(data, 0, 1024) is not None
+    if cls == "declaration-in-comment-or-script":
+        m = _HTML_META.search(data, 0, window)
+        return m is not None and m.start() < at
+    if cls == "charset-in-other-attribute":
+        end = data.find(b">", at)
+        rest = data[at + len(head):end if end >= 0 else len(data)]
+        return b"charset" in rest.lower()
+    return False
+
+
+def known_misled(f):
+    """matcher of the open finding: exactly the failures tagged autodetect-misled whose class is one of the four and whose
+    hypothesis really fails on the encoded bytes"""
+    case = f.get("case") or {}
+    if f.get("tag") != "autodetect-misled" or case.get("misled_by") not in MISLED_CLASSES or not case.get("data_hex"):
+        return False
+    st = {"charset": 0, "content": 1}.get(case.get("meta_style"))
+    if st is None or not isinstance(case.get("encoding"), str):
+        return False
+    return misled_hypothesis_fails(case["misled_by"], bytes.fromhex(case["data_hex"]), case["encoding"], st)
+
+
+def redetect(data, enc):
+    """what the real library makes of the encoded bytes (observed), and what the property demands (expected)"""
+    from bs4 import BeautifulSoup
+    from bs4.dammit import UnicodeDammit
+    with warnings.catch_warnings():
+        warnings.simplefilter("ignore")
+        d = UnicodeDammit(data, is_html=True)
+        soup2 = BeautifulSoup(data, "html.parser")
+    obs = {"orig": d.original_encoding, "declared": d.declared_html_encoding, "flag": d.contains_replacement_characters,
+           "text_is_decoding": d.unicode_markup == data.decode(enc), "ctor_orig": soup2.original_encoding}
+    want = {"orig": enc, "declared": enc, "flag": False, "text_is_decoding": True, "ctor_orig": enc}
+    return d, obs, want
+
+
+def misled_witness_still_fails(cls=None):
+    """the fixed witnesses, on the current tree: True when one (of that class) is still detected wrongly"""
+    from props import c08
+    for c, markup, enc, st in MISLED_WITNESSES:
+        if cls is not None and c != cls:
+            continue
+        r = c08.call(c08.make_soup(markup).encode, enc)
+        if r[0] != "ok":
+            continue
+        _, obs, want = redetect(r[1], enc)
+        if obs != want and misled_hypothesis_fails(c, r[1], enc, st):
+            return True
+    return False
+
+
 def autodetect_cases(ctx):
     """C08_autodetect_declared / _rendering evaluated on generated instances: documents are rendered by the real library
     (soup.encode(target), target one of the four encoders defined in Coq, any modelled spelling), the bytes are split at
@@ -726,6 +827,8 @@ def autodetect_cases(ctx):
         for enc, body in rng.sample(AUTODETECT_TARGETS, 2):
             markup = "<head>" + tagsrc + "</head><p>" + body + "</p>"
             docs.append(("adversarial-tag", {"what": label, "markup": markup}, c08.make_soup(markup), enc, 0))
+    for cls, markup, enc, st in MISLED_WITNESSES:      # fixed, seed-independent: every class of the open finding, every tier
+        docs.append(("misled-witness", {"what": cls, "markup": markup}, c08.make_soup(markup), enc, st))
     cmds, info = [], []
     for family, note, soup, enc, st in docs:
         r = c08.call(soup.encode, enc)
@@ -739,6 +842,13 @@ def autodetect_cases(ctx):
         i = b.find(tags[(st, enc)])
         if i < 0:
             ctx.count("cd_autodetect_outside_tag_shape")          # e.g. another attribute inside the tag: not the theorem's tag
+            if misled_hypothesis_fails("charset-in-other-attribute", b, enc, st):
+                _, obs, want = redetect(b, enc)
+                if obs != want:
+                    ctx.fail(dict(case, misled_by="charset-in-other-attribute", data_hex=b.hex(), output_bytes=len(b)),
+                             "re-parsing the encoded bytes does not auto-detect the encoding used: another attribute of the same <meta> "
+                             "tag contains the word charset and the sniffer reports the rightmost one", obs, want, tag="autodetect-misled")
+                    ctx.count("cd_autodetect_misled_charset-in-other-attribute")
             continue
         bpre, bpost = b[:i], b[i + len(tags[(st, enc)]):]
         cmds.append([21010, st, enc, bpre, bpost])
@@ -758,13 +868,7 @@ def autodetect_cases(ctx):
         # the window the model computed is the code's: max(2048, int(len * 0.05))
         if window != max(2048, int(len(b) * 0.05)):
             ctx.disagree("search window ~ Model.Autodetect.html_window", case, max(2048, int(len(b) * 0.05)), window)
-        with warnings.catch_warnings():
-            warnings.simplefilter("ignore")
-            d = UnicodeDammit(b, is_html=True)
-            soup2 = BeautifulSoup(b, "html.parser")
-        obs = {"orig": d.original_encoding, "declared": d.declared_html_encoding, "flag": d.contains_replacement_characters,
-               "text_is_decoding": d.unicode_markup == b.decode(enc), "ctor_orig": soup2.original_encoding}
-        want = {"orig": enc, "declared": enc, "flag": False, "text_is_decoding": True, "ctor_orig": enc}
+        d, obs, want = redetect(b, enc)
         if allc and in_names:
             ctx.count("cd_autodetect_in_domain")
             if obs != want:
@@ -774,6 +878,18 @@ def autodetect_cases(ctx):
             why = [k for k, v in case["hypotheses"].items() if not v][0]
             ctx.count("cd_autodetect_outside_" + why)
             ctx.count("cd_autodetect_outside_and_detected_" + ("right" if obs == want else "wrong"))
+            cls = {"no_bom": "mark-lookalike", "no_xml_declaration": "xml-declaration",
+                   "no_earlier_match": "declaration-in-comment-or-script"}.get(why)
+            if obs != want and cls is not None:
+                # the direct oracle: the property's last sentence fails on this document (open finding
+                # C08-autodetect-misled-by-other-bytes); a declaration beyond the search window is outside the clause
+                ctx.fail(dict(case, misled_by=cls, data_hex=b.hex()),
+                         "re-parsing the encoded bytes does not auto-detect the encoding used: %s" % {
+                             "mark-lookalike": "the rendering starts with bytes that look like a byte-order mark in the target encoding",
+                             "xml-declaration": "an XML declaration naming another encoding stands in front (it is not rewritten and is searched first)",
+                             "declaration-in-comment-or-script": "earlier bytes (a comment, a script) look like a <meta> declaration"}[cls],
+                         obs, want, tag="autodetect-misled")
+                ctx.count("cd_autodetect_misled_" + cls)
         # the fully concrete model on the same bytes, inside or outside the domain (when every name the run meets - mark,
         # declaration, candidates - is one on which the model and codecs.lookup agree)
         if case_supported(ctx, b, [bom_name(b)] if bom_name(b) else [], list(d.detector.encodings) + ([obs["declared"]] if obs["declared"] else [])):
